@@ -30,7 +30,7 @@ EXPLANATION = (
     "expr_transf hands every node to the driver (R8); open comprehensions are registered as a stack "
     "that get_load_name consults entirely (R9); the statement driver's namespace stack and "
     "generate_nsp pair every statement with the namespace of its scope (R10, R11)."
-    ' R4 computes the condition under which a population site is reached from every way of getting there (if/elif arms, arms left through continue/break/return/raise, hoisted predicates put back) and evaluates it on all symbol models (incl. imported names); R5 also requires the class-dict fallback to be lazy; R9 judges on a timeline which parts of a comprehension are rewritten while its targets are registered (only the first iterable may be outside); R11 also requires every scope kind without a statement of its own (lambda, listcomp, setcomp, dictcomp, genexpr) to be passed over; R12 no converter-built name reaches the rewriter.'
+    ' R4 computes the condition under which a population site is reached from every way of getting there (if/elif arms, arms left through continue/break/return/raise, hoisted predicates put back) and evaluates it on all symbol models (incl. imported names); R5 also requires the class-dict fallback to be lazy; R9 judges on a timeline which parts of a comprehension are rewritten while its targets are registered (only the first iterable may be outside); R11 also requires every scope kind without a statement of its own (lambda, listcomp, setcomp, dictcomp, genexpr) to be passed over; R12 no converter-built name reaches the rewriter. R1 also: a list that an expression handler rebuilds element by element loses no element on any path (kw_defaults stays aligned with kwonlyargs). R3 also: the read a lambda body of a class makes (same namespace object, class-level state, unless the Lambda handler registers itself) of a class member that a nested scope reads as a global gets the plain name.'
 )
 ASSUMPTIONS = [
     "symtable classifies each concrete program as CPython's compiler does (not decided here)",
@@ -137,6 +137,26 @@ def rule_r1(ctx):
                     )
                 elif e.kind == "X":
                     rr.ok(what)
+            # a list that the handler builds element by element keeps one element per element of the
+            # source list: on a path where elements of the field were looked at and none was appended,
+            # the rebuilt list is shorter than its siblings (kw_defaults against kwonlyargs, keys
+            # against values, ops against comparators) or an operand has disappeared
+            for n in iter_tnodes(pr.result):
+                for fname, v in n.fields.items():
+                    if not isinstance(v, PList):
+                        continue
+                    looked = [k for k in pr.assign if f".{fname}[*]" in k]
+                    kept = [x for x in v.items if not isinstance(x, Rep) or x.items]
+                    what = f"copier|{kind}|{n.kind}.{fname}|elements"
+                    if looked and not kept:
+                        rr.fail(
+                            f"C06-R1|{kind}|{n.kind}.{fname}|elements-dropped",
+                            f"expression handler of {kind} ({pr.result.site}): on the path [{short_ctx(pr, 100)}] the elements of `{fname}` are examined and none reaches the rebuilt `{n.kind}.{fname}`: "
+                            f"the list no longer lines up with the lists it is paired with by position (a default attached to another parameter, a parameter that silently disappears from the signature)",
+                            where=pr.result.site, what=what,
+                        )
+                    elif looked:
+                        rr.ok(what)
     rr.instances += n_copier
     return rr
 
@@ -835,7 +855,62 @@ def rule_r3(ctx):
                     where=ci.module.rel, what=f"{ci.name}|{sk}|{lk}|{sorted(c)}",
                 )
         rr.note(f"{ci.name}: {n_models} models of the predicates compared")
+        if any(storage_of(p.result) == ("classdict",) for p in st.paths if p.outcome == "ok"):
+            _lambda_reader(ctx, rr, ci, classes, ld, comp_attrs, models, first_level)
     return rr
+
+
+def _lambda_reader(ctx, rr, ci, classes, ld, comp_attrs, models, first_level):
+    """A lambda written in a class body does not see the members of the class (a class block is not an
+    enclosing scope): a name that the class binds and that the lambda reads denotes the global there.
+    The body of a lambda is rewritten by the same transformer with the same namespace object, so the
+    question put to get_load_name is the one a class-level read puts, in the state a class-level read
+    finds, unless the handler of Lambda registers something: the answer for a class member that a
+    nested scope reads as a global must be the plain name."""
+    from .exprcopy import all_expr_paths
+
+    paths = [p for p in all_expr_paths(ctx).get("Lambda", []) if p.extra.get("nsp_cls") == ci.name and p.outcome == "ok"]
+    if not paths:
+        rr.note(f"{ci.name}: no lambda is accepted in this namespace: the lambda reader is not examined")
+        return
+    if any(e.get("attr") in comp_attrs and e.get("kind") != "set" for p in paths for e in p.effects):
+        rr.note(f"{ci.name}: the handler of Lambda registers itself with the namespace: the lambda reader is not examined")
+        return
+    hosts = sorted({c[1] for c in classes.values() if c[0] == "host"})
+    for model in models:
+        if not (model["scope"] == "LOCAL" and model["is_assigned"] and not model["is_parameter"] and not model["is_imported"]):
+            continue
+        bad = None
+        for host_vals in itertools.product((False, True), repeat=len(hosts)):
+            hv = dict(zip(hosts, host_vals))
+            assignment = {}
+            for k, c in classes.items():
+                if c[0] == "sym":
+                    assignment[k] = model[c[1]]
+                elif c[0] == "mem":
+                    assignment[k] = c[1] == "GUC"
+                elif c[0] == "host":
+                    assignment[k] = hv[c[1]]
+                elif c[0] == "outer" and k.startswith("isnone:") and first_level is not None and len(k) == first_level:
+                    assignment[k] = True
+            lp = [p for p in ld.paths if _match(p, assignment)]
+            if len(lp) != 1:
+                raise AnalysisError(f"C06-R3: {ci.name}: decision list does not determine one outcome for the read in a lambda ({len(lp)} loads)")
+            l_kind = storage_of(lp[0].result) if lp[0].outcome == "ok" else ("raise",)
+            if l_kind[0] not in ("plain", "globals"):
+                bad = (l_kind, hv)
+                break
+        what = f"{ci.name}|lambda-body-read"
+        if bad is None:
+            rr.ok(what)
+        else:
+            rr.fail(
+                f"C06-R3|{ci.name}|lambda-body-read|load:{bad[0][0]}",
+                f"{ci.name}: a lambda in a class body that reads a global whose name the class also binds is given {'/'.join(map(str, bad[0]))} by get_load_name "
+                f"(the body of a lambda is rewritten with the class namespace in its class-level state; membership in the set of names read as globals by nested scopes is the only thing that tells the two readers apart): "
+                f"`x = 'g'\\nclass A:\\n x = 'm'\\n f = lambda self: x` returns the member instead of the global",
+                where=ci.module.rel, what=what,
+            )
 
 
 _PARAM_FIELDS = ("posonlyargs", "args", "vararg", "kwonlyargs", "kwarg")
